@@ -832,6 +832,11 @@ def run_bufgrow(prop="C04", tier="quick"):
         for b in fn["blocks"]:
             for el in b["elems"]:
                 def f(n):
+                    if n.get("k") == "decl":
+                        for d_ in n["decls"]:
+                            if "init" in d_:
+                                f(dict(k="binop", op="=", l=dict(k="var", id=d_["var"]["id"]), r=d_["init"]))
+                        return
                     if n.get("k") == "binop" and n["op"] == "=" and var(n["l"]) is not None:
                         r = strip(n["r"])
                         if isinstance(r, dict) and r.get("k") == "call" and r.get("callee") is None and akind(r) in ("alloc", "realloc"):
@@ -899,19 +904,37 @@ def run_bufgrow(prop="C04", tier="quick"):
                 if r_contract.implies(facts, full):
                     return "grow"
                 return None
-            IN = {fn["entry"]: (False, False)}           # (room, growing)
+            def ne_edge(cond, truth):
+                """the edge on which i != A is known (`i == A` false, `i != A` true)"""
+                c = strip(sa.strip_expect(cond))
+                while isinstance(c, dict) and c.get("k") == "unop" and c["op"] == "!":
+                    c, truth = strip(sa.strip_expect(c["e"])), not truth
+                if isinstance(c, dict) and c.get("k") == "binop" and c["op"] in ("==", "!=") and {var(c["l"]), var(c["r"])} == {i, A}:
+                    return truth == (c["op"] == "!=")
+                return False
+
+            def const(e):
+                e = strip(e)
+                return e["v"] if isinstance(e, dict) and e.get("k") == "int" else None
+
+            def level(ci, ca, lvl):
+                if ci is not None and ca is not None:
+                    return max(lvl, 2 if ci < ca else (1 if ci == ca else 0))
+                return lvl
+            # state: (lvl, growing, ci, ca)   lvl 2: i < A, 1: i <= A, 0: nothing known (must-facts; join = min);  ci / ca: the
+            # constant the variable currently holds, if any (the initial  alloc_size = 100, str_size = 0)
+            IN = {fn["entry"]: (0, False, None, None)}
             work = {fn["entry"]}
             reported = set()
             while work:
                 bid = max(work)
                 work.discard(bid)
                 b = blocks[bid]
-                room, growing = IN[bid]
+                lvl, growing, ci, ca = IN[bid]
                 for el in b["elems"]:
                     e = el["e"]
                     # stores into the buffer
                     def g(n, el=el):
-                        nonlocal room
                         if n.get("k") == "binop" and n["op"] == "=" and strip(n["l"]).get("k") == "index" and var(strip(n["l"])["base"]) == p:
                             ix = strip(strip(n["l"])["idx"])
                             appended = var(ix) == i or (isinstance(ix, dict) and ix.get("k") == "unop" and ix["op"] in ("post++",) and var(ix["e"]) == i)
@@ -923,7 +946,7 @@ def run_bufgrow(prop="C04", tier="quick"):
                                 return
                             if key_ not in reported and path != FIXTURE:
                                 res["stats"]["bufgrow_appends"] += 1
-                            if not room and key_ + ("v",) not in reported:
+                            if lvl < 2 and key_ + ("v",) not in reported:
                                 reported.add(key_ + ("v",))
                                 f_ = Finding(prop, "R-BUFGROW", path, el["line"], fn["name"], "append-without-room:%d" % el["line"],
                                              "the store into the growable buffer at line %d is reachable on a path that has not established that the "
@@ -937,24 +960,40 @@ def run_bufgrow(prop="C04", tier="quick"):
                     sa.walk(e, g)
                     # kills / growth completion
                     def k(n):
-                        nonlocal room, growing
-                        tgt = None
+                        nonlocal lvl, growing, ci, ca
+                        tgt, val, step = None, None, None
                         if n.get("k") == "binop" and n["op"].endswith("=") and n["op"] not in ("==", "!=", "<=", ">="):
                             tgt = var(n["l"])
+                            if n["op"] == "=":
+                                val = const(n["r"])
+                            elif n["op"] == "+=" and const(n["r"]) == 1:
+                                step = 1
                         elif n.get("k") == "unop" and n["op"] in ("post++", "pre++", "post--", "pre--"):
                             tgt = var(n["e"])
+                            step = 1 if n["op"].endswith("++") else None
                         elif n.get("k") == "decl":
                             for d_ in n["decls"]:
                                 if d_["var"]["id"] in (i, A) and "init" in d_:
-                                    room = False
+                                    v_ = const(d_["init"])
+                                    if d_["var"]["id"] == i:
+                                        ci = v_
+                                    else:
+                                        ca = v_
+                                    lvl = level(ci, ca, 0)
                             return
                         if tgt == i:
-                            room = False
-                        elif tgt == A:
-                            if growing:
-                                room, growing = True, False
+                            if step == 1:                                  # one more byte used:  i < A  becomes  i <= A
+                                ci = ci + 1 if ci is not None else None
+                                lvl = level(ci, ca, max(lvl - 1, 0))
                             else:
-                                room = False
+                                ci = val
+                                lvl = level(ci, ca, 0)
+                        elif tgt == A:
+                            ca = val
+                            if growing:
+                                lvl, growing = 2, False
+                            else:
+                                lvl = level(ci, ca, 0)
                     sa.walk(e, k)
                 if b.get("noreturn"):
                     continue
@@ -963,28 +1002,30 @@ def run_bufgrow(prop="C04", tier="quick"):
                 for si, s_ in enumerate(b["succs"]):
                     if not isinstance(s_, int) or s_ == fn["exit"]:
                         continue
-                    o = (room, growing)
+                    o = (lvl, growing, ci, ca)
                     if cond is not None:
                         re_ = room_edge(cond, si == 0)
                         if re_ is True:
-                            o = (True, False)
+                            o = (2, False, ci, ca)
                         elif re_ == "grow":
-                            o = (False, True)
+                            o = (0, True, ci, ca)
+                        elif lvl == 1 and ne_edge(cond, si == 0):            # i <= A and i != A
+                            o = (2, growing, ci, ca)
                     cur = IN.get(s_)
-                    new = o if cur is None else (cur[0] and o[0], cur[1] and o[1])
+                    new = o if cur is None else (min(cur[0], o[0]), cur[1] and o[1], cur[2] if cur[2] == o[2] else None, cur[3] if cur[3] == o[3] else None)
                     if cur is None or new != cur:
                         IN[s_] = new
                         work.add(s_)
             if path != FIXTURE:
                 res["samples"].append(dict(rule="R-BUFGROW", function=fn["name"], file=relpath(path)))
-    if not fx.get("fix_bufgrow_bad") or fx.get("fix_bufgrow_good"):
+    if not fx.get("fix_bufgrow_bad") or fx.get("fix_bufgrow_good") or not fx.get("fix_bufgrow_bad2") or fx.get("fix_bufgrow_good2"):
         raise AnalysisBroken("R-BUFGROW fixtures: %r" % dict(fx))
     if res["stats"]["bufgrow_appends"] < 3:
         raise AnalysisBroken("R-BUFGROW: only %d append stores into growable buffers found (floor 3)" % res["stats"]["bufgrow_appends"])
     res["stats"] = dict(res["stats"])
     res["obligations"] = res["stats"]["bufgrow_appends"] + res["stats"].get("bufgrow_other_index", 0)
     res["undecided"] = res["stats"].get("bufgrow_other_index", 0)
-    res["notes"].append("fixtures: 1 positive fired, 1 negative silent")
+    res["notes"].append("fixtures: 2 positive fired, 2 negative silent")
     res["exhaustive"] = True
     return res
 
